@@ -603,6 +603,10 @@ func (l *Lexer) followsAmountNumber(pos int) bool {
 	if p < 0 {
 		return false
 	}
+	// a number may end with its decimal mark ("10.")
+	if (l.input[p] == '.' || l.input[p] == ',') && p > 0 {
+		p--
+	}
 	return l.isDigit(l.input[p])
 }
 
